@@ -21,7 +21,11 @@ A payload descriptor is a dict:
                 ("service-drop",)             drop the reference to the service created last
                 ("adopt-many", descriptor, k) adopt the very same callable k times
                 ("adopt-own-loop", descriptor)   adopt from inside asyncio.run() of this thread
+                ("stubborn", k, period)       (asyncio) heartbeat loop absorbing the first k cancellations
+                ("section-adopt", descriptor) adopt another payload from inside a section
                 ("call", name)                call env.shared[name](env)
+
+``plain``     True: the coroutine payload is wrapped in a plain ``def`` that returns the awaitable
 ``cleanup``   None | ("sync", k) | ("shield", seconds) | ("sync-adopt", descriptor) |
               ("shield-adopt", seconds, descriptor)      (what its ``finally`` does)
 ``args`` / ``kwargs``   passed through adopt / execute and checked on arrival
@@ -61,6 +65,21 @@ def make_exception(kind: str):
         return StopIteration("boom")
     if kind == "StopAsyncIteration":
         return StopAsyncIteration("boom")
+    simple = {"KeyError": KeyError, "RuntimeError": RuntimeError, "TypeError": TypeError,
+              "ValueError": ValueError, "AttributeError": AttributeError,
+              "IndexError": IndexError, "ImportError": ImportError}
+    if kind in simple:
+        return simple[kind]("boom")
+    if kind == "cf.CancelledError":
+        import concurrent.futures
+
+        return concurrent.futures.CancelledError("boom")
+    if kind == "cf.InvalidStateError":
+        import concurrent.futures
+
+        return concurrent.futures.InvalidStateError("boom")
+    if kind == "asyncio.InvalidStateError":
+        return asyncio.InvalidStateError("boom")
     if kind == "TimeoutError":
         return TimeoutError("boom")
     if kind == "UserTimeout":
@@ -85,6 +104,9 @@ def make_exception(kind: str):
 EXCEPTION_KINDS = [
     "LookupError", "UserError", "OSError", "AssertionError", "StopIteration",
     "StopAsyncIteration", "ExceptionGroup",
+    # classes that runtime code is tempted to special-case or that a library converts
+    "KeyError", "RuntimeError", "TypeError", "AttributeError", "TimeoutError", "UserTimeout",
+    "cf.CancelledError", "cf.InvalidStateError", "asyncio.InvalidStateError",
 ]
 BASE_EXCEPTION_KINDS = [
     "SystemExit", "GeneratorExit", "UserBaseError", "asyncio.CancelledError",
@@ -129,8 +151,19 @@ class Kit:
     # -- building ------------------------------------------------------------------
     def payload(self, desc):
         flavour = desc["flavour"]
-        return {"asyncio": self._asyncio, "trio": self._trio,
-                "threading": self._threading}[flavour](desc)
+        payload = {"asyncio": self._asyncio, "trio": self._trio,
+                   "threading": self._threading}[flavour](desc)
+        if desc.get("plain") and flavour != "threading":
+            # a plain callable that does its first part synchronously and returns the awaitable
+            kit = self
+
+            def plain(*args, **kwargs):
+                kit.env.log("plain-call", id=desc["id"], **kit.context(flavour))
+                return payload(*args, **kwargs)
+
+            plain.__qualname__ = plain.__name__ = "plain_%s" % desc["id"]
+            return plain
+        return payload
 
     def submit(self, desc, how="adopt"):
         """adopt / execute ``desc`` through the public API; returns what the call gave"""
@@ -181,6 +214,18 @@ class Kit:
             raise exc
         if op == "adopt":
             self.submit(step[1], "adopt")
+            return True
+        if op == "section-adopt":
+            # adopt another payload from the middle of a synchronous section
+            flavour = desc["flavour"]
+            self.sections[flavour] += 1
+            self.submit(step[1], "adopt")
+            self.env.point("section")
+            if self.sections[flavour] != 1:
+                self.env.log("overlap", id=desc["id"], flavour=flavour,
+                             counter=(1, self.sections[flavour]))
+            self.sections[flavour] -= 1
+            self.env.log("section", id=desc["id"], **self.context(flavour))
             return True
         if op == "adopt-many":
             # the very same callable adopted several times (no arguments): each is a payload
@@ -256,6 +301,18 @@ class Kit:
                         while True:
                             await asyncio.sleep(step[1])
                             kit.env.log("beat", id=desc["id"])
+                    elif op == "stubborn":
+                        # finishes its current item first: absorbs the first cancellations
+                        absorbed = 0
+                        while True:
+                            try:
+                                await asyncio.sleep(step[2])
+                                kit.env.log("beat", id=desc["id"])
+                            except asyncio.CancelledError:
+                                if absorbed >= step[1]:
+                                    raise
+                                absorbed += 1
+                                kit.env.log("absorbed-cancel", id=desc["id"], count=absorbed)
                     elif op == "spin":
                         count = 0
                         while step[1] is None or count < step[1]:
